@@ -201,6 +201,8 @@ def rp_table(ctx):
     reps["2DPGA-like[0,+,+] full"] = ([0, 1, 1], tuple(range(8)), tuple(range(8)))
     reps["4D[0,+,+,-] full-shuffled"] = ([0, 1, 1, -1], tuple((k * 7) % 16 for k in range(16)), tuple((k * 11 + 3) % 16 for k in range(16)))
     reps["2D[+,-] full"] = ([1, -1], (2, 0, 3, 1), (1, 3, 0, 2))
+    if ctx.tier == "thorough":
+        reps["5D[+,+,-,0,+] sparse"] = ([1, 1, -1, 0, 1], (31, 3, 12, 17, 0, 6, 24, 21, 30, 15), (5, 10, 31, 16, 1, 14, 27, 28, 7))
     for name, (sig, xk, yk) in reps.items():
         c = f"codegen.{cg}#table:{name}"
         got = run_product(ctx, repo, cg, sig, xk, yk, c)
